@@ -68,6 +68,9 @@ func (w *World) RunTasks(reqs [][]*Req, cfg sched.Config, res *eng.Result) *sche
 	res.Steps, res.Ticks, res.Switches = sr.Steps, sr.Ticks, sr.Switches
 	res.SchedHash, res.SwitchHash, res.SwitchPairs, res.Sites = sr.SchedHash, sr.SwitchHash, sr.SwitchPairs, sr.SiteHits
 	res.Blocked = sr.BlockedHandovers
+	for st, n := range sr.BlockedStates {
+		res.Probes["blocked_outside_in_state:"+st] += n
+	}
 	res.Poisoned = sr.Deadlock
 	return sr
 }
